@@ -53,7 +53,9 @@ RULE = ("generated directories: 1-3 species present in a start-resolution system
         "names (adjacent / non-adjacent in discovery order = sorted start topology, all species, an explicit species among "
         "them, both orders); explicit triples whose end topology declares another molecule name than the start topology; "
         "main() itself under PYTHONHASHSEED 0..7/0..15 in subprocesses (--auto with/without --exclude): ordered molecule list "
-        "handed to auto_map, and for real runs with a fixed numpy seed the bytes of the written file. "
+        "handed to auto_map, and for real runs with a fixed numpy seed the bytes of the written file; same-name distractor "
+        "topologies (another model declaring a species' molecule name, sorting after - nothing may change - or before the genuine "
+        "end topology - tolerated alternative); coordinate files with several end-resolution molecules of a species. "
         "Every permutation of the candidate list when it has <= 5 (quick) / <= 6 (thorough) files, sampled otherwise; "
         "hash seeds in subprocesses.  A case is non-trivial when its (directory descriptor, order) is distinct and the "
         "directory contains at least one discoverable species.")
@@ -112,6 +114,15 @@ def renamed_end(sp):
             "aa": [[r[0], list(r[1])] for r in sp["aa"]], "same_sig": True}
 
 
+def same_name_model(sp):
+    """pseudo species: a topology of ANOTHER model of the molecule (e.g. united atom) that declares the species' own
+    molecule name: same residue names, one more atom per residue than the end resolution (it neither loads into the start
+    system nor pairs with the species' end coordinates)"""
+    res = [[r[0], list(r[1]) + ["U%d" % k]] for k, r in enumerate(sp["aa"])]
+    return {"name": "UA_" + sp["name"], "molname": sp["name"], "cg": res, "aa": [[r[0], list(r[1])] for r in res],
+            "same_sig": True}
+
+
 def make_descriptor(rs, profile="full", for_mapping=False, nsp=None):
     """profile: 'small' (few candidate files, exhaustive permutations), 'full', 'samesig'."""
     if profile == "ambig":
@@ -142,12 +153,14 @@ def make_descriptor(rs, profile="full", for_mapping=False, nsp=None):
     files = []
     present = {}
     cg_names = {}
+    aa_names = {}
     pseudo = []
     for sp in species:
         st = NAME_STYLES[int(rs.randint(0, len(NAME_STYLES)))]
         n = sp["name"]
         roles = {"cg": st[0].format(n=n), "aa_top": st[1].format(n=n), "aa_coor": st[2].format(n=n)}
         cg_names[n] = roles["cg"]
+        aa_names[n] = roles["aa_top"]
         drop = None
         if not for_mapping and profile != "small":
             u = rs.randint(0, 10)
@@ -184,6 +197,30 @@ def make_descriptor(rs, profile="full", for_mapping=False, nsp=None):
         root_, ext_ = os.path.splitext(g)
         fname = ["0_" + g, root_ + ".alt" + ext_, "zz_" + g, root_ + "_zalt" + ext_][int(rs.randint(0, 4))]
         files.append({"name": fname, "kind": "top", "mol": ps["name"], "res": "cg"})
+    # same-name distractor: a third topology carrying a species' molecule name (another model, e.g. BMIM_UA.itp next to
+    # BMIM_AA.itp).  Sorting AFTER the genuine end topology it must change nothing; sorting BEFORE it the tool reports it
+    # instead (first same-name candidate in scan order) - tolerated by the oracle, see expected_discovery.
+    cand_ = [sp for sp in species if not sp["same_sig"]]
+    if cand_ and rs.randint(0, 3 if profile == "small" else 2) == 0:
+        sp = cand_[int(rs.randint(0, len(cand_)))]
+        pseudo.append(same_name_model(sp))
+        g = aa_names[sp["name"]]
+        root_, ext_ = os.path.splitext(g)
+        after = [root_ + "_zUA" + ext_, "zz_UA_" + g]
+        before = ["0UA_" + g, root_ + "-UA" + ext_]
+        opts_ = after if for_mapping else (after + before)
+        files.append({"name": opts_[int(rs.randint(0, len(opts_)))], "kind": "top", "mol": "UA_" + sp["name"], "res": "aa"})
+    # a coordinate file with SEVERAL end-resolution molecules of a species (a small box, a pair): it is not the end
+    # coordinate file of the species (exactly one molecule), whether it sorts before or after the genuine file
+    if profile != "small" and rs.randint(0, 3) == 0:
+        sp = species[int(rs.randint(0, len(species)))]
+        others = [x for x in species if x is not sp]
+        # (one molecule of the species next to another species' molecule IS accepted by Molecule.from_files - one
+        # recognised molecule - hence a second candidate: only in the discovery streams, where it is handled as ambiguous)
+        mols = [[sp["name"], "aa"]] * int(rs.randint(2, 4)) if rs.randint(0, 2) or not others or for_mapping else \
+            [[sp["name"], "aa"], [others[0]["name"], "aa"]]
+        files.append({"name": ["0_box_%s.gro", "AA_pair_%s.gro", "zz_box_%s.gro"][int(rs.randint(0, 3))] % sp["name"],
+                      "kind": "coor", "mols": [list(m) for m in mols]})
     # distractors
     pool = [{"name": "ff_martini.itp", "kind": "raw", "text": "[ defaults ]\n1 1 no 1.0 1.0\n\n[ atomtypes ]\nP5 72.0 0.0 A 0.0 0.0\n"},
             {"name": "empty.itp", "kind": "raw", "text": ""},
@@ -273,7 +310,7 @@ def make_ambiguous(rs):
     not prescribed by the property; that the answer is the same for every order and hash seed is."""
     nsp = int(rs.randint(1, 3))
     species = [make_species(rs, k, same_sig=(rs.randint(0, 6) == 0)) for k in range(nsp)]
-    kinds = ["two_aa_top", "two_coor", "stale", "spelling", "two_cg", "near_miss", "alias_cg"]
+    kinds = ["two_aa_top", "two_coor", "stale", "spelling", "two_cg", "near_miss", "alias_cg", "same_name_model"]
     chosen = {kinds[int(i)] for i in rs.permutation(len(kinds))[:int(rs.randint(1, 4))]}
     layout = int(rs.randint(0, 3))      # 0: cg/ aa/ old/ with equal base names, 1: flat, 2: nested deeper
     def fn(folder, n, ext):
@@ -304,6 +341,10 @@ def make_ambiguous(rs):
         pseudo.append(ps)
         files.append({"name": fn(["alt", "zalt"][int(rs.randint(0, 2))], victim, "itp"), "kind": "top", "mol": ps["name"],
                       "res": "cg"})
+    if "same_name_model" in chosen and not vsp["same_sig"]:
+        pseudo.append(same_name_model(vsp))
+        files.append({"name": fn(["ua", "0ua", "zua"][int(rs.randint(0, 3))], victim, "itp"), "kind": "top",
+                      "mol": "UA_" + victim, "res": "aa"})
     if "alias_cg" in chosen:
         # same residues AND atom names under another molecule name: it loads; whichever of the two start topologies is
         # scanned first takes the residues
@@ -411,7 +452,7 @@ def materialize(desc, d):
             atoms = []
             for r, (resname, names) in enumerate(res):
                 atoms += [(an, resname, r + 1) for an in names]
-            molgen.write_itp(path, sp["name"], atoms, [tuple(b) for b in chain(len(atoms))])
+            molgen.write_itp(path, sp.get("molname", sp["name"]), atoms, [tuple(b) for b in chain(len(atoms))])
         else:
             recs = []
             resid, atomid = 1, 1
@@ -475,7 +516,7 @@ def model_tables(desc, d):
                 sig = [kinds.get((rn, len(names))) for rn, names in res]
                 ok = None not in sig and all(kind_names[k] == names for k, (rn, names) in zip(sig, res))
                 tbl.append("(%s, Build_topdata (Some %s) %s %s)" % (
-                    coq_str(p), coq_str(sp["name"]),
+                    coq_str(p), coq_str(sp.get("molname", sp["name"])),
                     "None" if None in sig else "(Some %s)" % coq_list(["%d" % k for k in sig]),
                     "true" if ok else "false"))
                 tops[p] = res
@@ -521,9 +562,10 @@ def expected_discovery(desc, d, known):
         co = [p for p, f in entries if f["kind"] in ("coor", "ref") and
               sum(1 for m in coor_content(desc, f) if m[0] == name and (m[1] == "aa" or sp["same_sig"])) == 1]
         als = [(p, f["mol"]) for p, f in entries if f["kind"] == "top" and desc.get("aliases", {}).get(f["mol"]) == name]
+        ua = [p for p, f in entries if f["kind"] == "top" and species_of(desc, f["mol"]).get("molname") == name]
         if len(cg) > 1 or len(aa) > 1 or len(co) > 1 or als:
             if cg or als or (sp["same_sig"] and aa):
-                ambiguous[name] = {"tops": set(cg + aa + [p for p, _ in als]), "coords": all_coords,
+                ambiguous[name] = {"tops": set(cg + aa + ua + [p for p, _ in als]), "coords": all_coords,
                                    "aliases": {m for _, m in als}}
             continue
         opts = []
@@ -544,6 +586,14 @@ def expected_discovery(desc, d, known):
                 if co:
                     o["coor_AA"] = co[0]
             opts.append(o)
+            # A topology of another model that declares the species' molecule name is NOT its end topology.  The tool
+            # keeps the first same-name candidate in scan order (sorted paths) and warns about the others: a distractor
+            # that sorts AFTER the genuine end topology must change nothing (exactness demanded); one that sorts BEFORE
+            # it (or stands alone) is what the unchanged tool reports, without coordinates - outside "at most one
+            # candidate per role", tolerated here as an alternative, never demanded.
+            for p in ua:
+                if not aa or p < aa[0]:
+                    opts.append({"top_CG": cg[0], "top_AA": p})
         if opts:
             exp[name] = opts
     return exp, known_species, ambiguous
@@ -972,14 +1022,17 @@ def expected_main(desc, d, mol, use_auto, exclude):
     if not use_auto:
         return [], []
     exp, _, ambiguous = expected_discovery(desc, d, mol)
-    out = []
+    out, optional = [], []
     for n, opts in exp.items():
         if exclude is not None and n in exclude:
             continue
         full = [o for o in opts if len(o) == 3]
-        if full:
+        if full and len(full) < len(opts) and any("top_AA" in o and o not in full for o in opts):
+            optional.append({"tops": {o["top_CG"] for o in full} | {o["top_AA"] for o in full},
+                             "coords": {o["coor_AA"] for o in full}})
+        elif full:
             out.append([(o["top_CG"], o["coor_AA"], o["top_AA"]) for o in full])
-    amb = [a for n, a in ambiguous.items() if not (exclude is not None and n in exclude)]
+    amb = optional + [a for n, a in ambiguous.items() if not (exclude is not None and n in exclude)]
     return out, amb
 
 
@@ -1457,7 +1510,33 @@ def corpus_descs():
                            {"mol": [["MOLA_CG.itp", "MOLA_AA.gro", "MOLA_AA_renamed.itp"]],
                             "auto": ["M1_CG.itp", "M1_AA.itp", "M1_AA.gro", "system.gro"], "scale": None, "out_mode": "default"}],
             "triples": {"MOLA": ["MOLA_CG.itp", "MOLA_AA.gro", "MOLA_AA.itp"], "M1": ["M1_CG.itp", "M1_AA.gro", "M1_AA.itp"]}}
-    return [d11, f1, f3, sub, resp, nm, exc, rend]
+    # a united-atom topology that declares the species' molecule name and sorts after its genuine end topology
+    # (seeded C20-10 layout: BMIM_UA.itp next to BMIM_AA.itp, forcefield.itp, notes.txt, a start-resolution BF4_CG.gro)
+    ua = {"name": "UA_MOLA", "molname": "MOLA", "cg": [["MOLA", ["C1", "C2", "C3", "C4", "U0"]]],
+          "aa": [["MOLA", ["C1", "C2", "C3", "C4", "U0"]]], "same_sig": True}
+    snm = {"species": [mola, m1, ua], "in_system": ["MOLA", "M1"], "blocks": [["MOLA", 2], ["M1", 2]],
+           "files": [top("MOLA_CG.itp", "MOLA", "cg"), top("MOLA_AA.itp", "MOLA", "aa"), coor("MOLA_AA.gro", "MOLA"),
+                     top("MOLA_UA.itp", "UA_MOLA", "aa"),
+                     top("M1_CG.itp", "M1", "cg"), top("M1_AA.itp", "M1", "aa"), coor("M1_AA.gro", "M1"),
+                     {"name": "M1_CG.gro", "kind": "coor", "mols": [["M1", "cg"]]},
+                     {"name": "forcefield.itp", "kind": "raw", "text": "[ defaults ]\n1 1 no 1.0 1.0\n"},
+                     {"name": "notes.txt", "kind": "raw", "text": "x\n"}, {"name": "system.gro", "kind": "ref"}],
+           "ref": "system.gro",
+           "auto": ["M1_AA.gro", "M1_AA.itp", "M1_CG.gro", "M1_CG.itp", "MOLA_AA.gro", "MOLA_AA.itp", "MOLA_CG.itp",
+                    "MOLA_UA.itp", "forcefield.itp", "notes.txt"],
+           "known": [], "exclude": None, "geom_seed": 9, "profile": "corpus-same-name-model", "main_cases": [["NOPE"]]}
+    # a file with two end-resolution molecules that sorts before the species' single-molecule file (seeded C20-7 layout:
+    # AA_pair.gro next to BMIM_AA.gro)
+    pair = {"species": [mola, m1], "in_system": ["MOLA", "M1"], "blocks": [["MOLA", 2], ["M1", 2]],
+            "files": [top("MOLA_CG.itp", "MOLA", "cg"), top("MOLA_AA.itp", "MOLA", "aa"), coor("MOLA_AA.gro", "MOLA"),
+                      {"name": "AA_pair.gro", "kind": "coor", "mols": [["MOLA", "aa"], ["MOLA", "aa"]]},
+                      top("M1_CG.itp", "M1", "cg"), top("M1_AA.itp", "M1", "aa"), coor("M1_AA.gro", "M1"),
+                      {"name": "system.gro", "kind": "ref"}],
+            "ref": "system.gro",
+            "auto": ["AA_pair.gro", "M1_AA.gro", "M1_AA.itp", "M1_CG.itp", "MOLA_AA.gro", "MOLA_AA.itp",
+                     "MOLA_CG.itp", "system.gro"],
+            "known": [], "exclude": None, "geom_seed": 10, "profile": "corpus-multi-molecule-coordinates"}
+    return [d11, f1, f3, sub, resp, nm, exc, rend, snm, pair]
 
 
 def hash_jobs(items):
